@@ -44,7 +44,10 @@ pub trait Indexable: std::fmt::Debug {
     fn index(&self, index: Expression) -> Option<Expression>;
 
     fn index_or_err(&self, index: Expression) -> Result<Expression, Error> {
-        let index_value = index.as_number().unwrap_or(0) as usize;
+        let index_value = index
+            .as_number()
+            .and_then(|n| usize::try_from(n).ok())
+            .unwrap_or(0);
         self.index(index).ok_or(Error::PropertyIndexNotFound(
             index_value,
             format!("{self:?}"),
@@ -56,7 +59,8 @@ impl Indexable for StructExpr {
     fn index(&self, index: Expression) -> Option<Expression> {
         // numeric indices represent the index of the field of the struct
         match index {
-            Expression::Number(n) => self.fields.get(n as usize).cloned(),
+            // an index that is negative or wider than a position can be names no field
+            Expression::Number(n) => self.fields.get(usize::try_from(n).ok()?).cloned(),
             _ => return None,
         }
     }
@@ -70,7 +74,7 @@ impl Indexable for Expression {
                 .iter()
                 .find(|(k, _)| *k == index)
                 .map(|(k, v)| Expression::Tuple(Box::new((k.clone(), v.clone())))),
-            Expression::List(x) => x.get(index.as_number()? as usize).cloned(),
+            Expression::List(x) => x.get(usize::try_from(index.as_number()?).ok()?).cloned(),
             Expression::Tuple(x) => match index.as_number()? {
                 0 => Some(x.0.clone()),
                 1 => Some(x.1.clone()),
